@@ -173,7 +173,7 @@ bool Driver::runCPP(const CommandOptions& cmdOpts, Files& files) const
             std::tie(exit, text) = compiler.preprocessFile(fi.fullFileName());
         else {
             // TODO: Make it per include tolerant.
-            std::tie(exit, text) = compiler.preprocess_IgnoreIncludes(text);
+            std::tie(exit, text) = compiler.preprocess_IgnoreIncludes(f.second.c_);
         }
         if (exit != 0) {
             std::cerr << kCnip << "preprocessing failed" << std::endl;
